@@ -100,7 +100,7 @@ type H struct {
 	EpsDefault    bool    `json:"eps_default,omitempty"` // no Threshold option is passed (default 30 min)
 	Mixed         bool    `json:"mixed,omitempty"`       // versions before MixSec carry no commit time (run only)
 	MixSec        int64   `json:"mix_s,omitempty"`
-	Polygon       bool    `json:"polygon,omitempty"` // relation tagged type=multipolygon
+	Polygon       bool    `json:"polygon,omitempty"`  // relation tagged type=multipolygon
 	Boundary      bool    `json:"boundary,omitempty"` // with Polygon: tagged type=boundary instead
 	Ring          bool    `json:"ring,omitempty"`     // way children are consecutive arcs of one closed ring
 	Children      []Child `json:"children"`
